@@ -157,6 +157,7 @@ type space struct {
 	textH   []string // histories for text cases
 	opts    []optCombo
 	optH    []string // histories for option cases
+	widthH  []string // histories that move the count across decimal digit widths (9<->10, 99<->100)
 	nText   int
 	nOpt    int
 	indices []int // nil = all; otherwise the selected subset (C13_MAXCASES)
@@ -174,6 +175,13 @@ func enumerate(thorough bool) *space {
 	}
 	sp.nText = len(placements) * len(sp.texts) * len(sp.textH) * 2
 	sp.nOpt = len(sp.opts) * len(sp.optH) * 4
+	// T = add 10 items, H = add 90, D = remove 5, A = add 1, N = remove 1: the persisted count changes its number of
+	// digits in both directions (the in-place patch of storeinfo.txt must cope with a shorter and a longer number)
+	depthW := 3
+	if thorough {
+		depthW = 4
+	}
+	sp.widthH = histories("TDANH", depthW)
 	return sp
 }
 
@@ -181,7 +189,7 @@ func (sp *space) Len() int {
 	if sp.indices != nil {
 		return len(sp.indices)
 	}
-	return sp.nText + sp.nOpt
+	return sp.nText + sp.nOpt + len(sp.widthH)*4
 }
 
 // At returns case number i. Order: text cases by placement, text (shortest first), history, cache mode;
@@ -203,6 +211,14 @@ func (sp *space) At(i int) tcase {
 		return tcase{Placement: placements[i], Text: tx, Opts: baseOpts, History: h, Cold: cold, CreateSeparate: cold, Idx: idx}
 	}
 	i -= sp.nText
+	if i >= sp.nOpt {
+		i -= sp.nOpt
+		sep := i%2 == 1
+		i /= 2
+		cold := i%2 == 1
+		i /= 2
+		return tcase{Opts: baseOpts, History: sp.widthH[i%len(sp.widthH)], Cold: cold, CreateSeparate: sep, Idx: idx}
+	}
 	sep := i%2 == 1
 	i /= 2
 	cold := i%2 == 1
@@ -336,7 +352,7 @@ func (w *worker) runCase(c tcase) {
 		}
 		run.Violate(ev.Violation{
 			Sig:    sig,
-			Detail: fmt.Sprintf("%s after commit #%d of history %q (P=add 2, Z=add 1 remove 1, N=remove 1, A=add 1, E=remove all): store options %+v [%s], %s: %s", symptom, step, c.History, describe(so), c.Opts, map[bool]string{true: "L2 cache cleared after each commit", false: "warm L2 cache"}[c.Cold], detail),
+			Detail: fmt.Sprintf("%s after commit #%d of history %q (P=add 2, Z=add 1 remove 1, N=remove 1, A=add 1, E=remove all, T=add 10, H=add 90, D=remove 5): store options %+v [%s], %s: %s", symptom, step, c.History, describe(so), c.Opts, map[bool]string{true: "L2 cache cleared after each commit", false: "warm L2 cache"}[c.Cold], detail),
 			Replay: map[string]any{"case": c, "store_name": so.Name, "description": so.Description, "custom_data": so.CustomData, "mapkey_index_spec": so.MapKeyIndexSpecification, "cel_expression": so.CELexpression, "failed_after_commit": step},
 		})
 	}
@@ -570,6 +586,15 @@ func applyOp(b btree.BtreeInterface[int, string], op byte, model []int, next int
 		}
 	case 'A':
 		e = add()
+	case 'T', 'H':
+		n := map[byte]int{'T': 10, 'H': 90}[op]
+		for i := 0; i < n && e == ""; i++ {
+			e = add()
+		}
+	case 'D':
+		for i := 0; i < 5 && len(m) > 0 && e == ""; i++ {
+			e = removeSmallest()
+		}
 	case 'Z':
 		if e = add(); e == "" {
 			e = removeSmallest()
@@ -755,7 +780,9 @@ func main() {
 	}
 	run.Set("cases_enumerated", cases.Len())
 	run.Set("text_cases", nText)
-	run.Set("option_cases", nOpt)
+	run.Set("option_cases", nOpt-len(cases.widthH)*4)
+	run.Set("digit_width_cases", len(cases.widthH)*4)
+	run.Set("digit_width_histories", fmt.Sprintf("every history of %d commits over {T=add 10 items, H=add 90, D=remove 5, A=add 1, N=remove 1} (%d) x {warm, cold} x {creation in the first commit, separately}: the persisted count gains and loses decimal digits (9<->10, 99<->100, 10->5, ...)", len(cases.widthH[0]), len(cases.widthH)))
 	run.Set("distinct_texts", len(tx))
 	run.Set("distinct_nontrivial", run.Coverage["cases"])
 	maxTok := 2
